@@ -795,6 +795,38 @@ mutant('C16', 'c16-collect-results-inside', BASICS,
        "        tasks = [scope.do(activity) for activity in activities]\n    return [await task for task in tasks]",
        "        tasks = [scope.do(activity) for activity in activities]\n        return [await task for task in tasks]",
        'collect:results-in-order', 'a failing activity is awaited inside the scope: raised directly instead of Concurrent')
+mutant('C16', 'c16-collect-skips-first', BASICS,
+       "        tasks = [scope.do(activity) for activity in activities]",
+       "        tasks = [scope.do(activity) for activity in activities[1:]]",
+       'collect:spawns-all-in-order', 'the first activity is never run')
+mutant('C16', 'c16-collect-filtered-loop', BASICS,
+       "        tasks = [scope.do(activity) for activity in activities]",
+       "        tasks = []\n        for activity in activities:\n            if activity is not None:\n                tasks.append(scope.do(activity))",
+       'collect:spawns-all-in-order', 'a filtering spawn loop')
+mutant('C16', 'c16-collect-sorted-results', BASICS,
+       "    return [await task for task in tasks]",
+       "    tasks.sort(key=id)\n    return [await task for task in tasks]",
+       'collect', 'results in arbitrary order')
+mutant('C16', 'c16-first-count-or', BASICS,
+       "    count = count if count is not None else len(activities)",
+       "    count = count or len(activities)",
+       'first:count-None-means-all', 'count=0 yields everything')
+mutant('C16', 'c16-first-other-queue', BASICS,
+       "        async for winner in a.islice(results, count):",
+       "        async for winner in a.islice(Queue(), count):",
+       'first:fifo', 'winners are read from a queue nobody writes')
+mutant('C16', 'c16-first-spawn-filtered', BASICS,
+       "        for activity in activities:\n            scope.do(",
+       "        for activity in activities:\n          if activity is not None:\n            scope.do(",
+       'first:volatile-monitors', 'a filtering spawn loop')
+twin('C16', 'c16-twin-append-loops', BASICS,
+     "        tasks = [scope.do(activity) for activity in activities]\n    return [await task for task in tasks]",
+     "        tasks = []\n        for activity in activities:\n            tasks.append(scope.do(activity))\n    collected = []\n    for task in tasks:\n        outcome = await task\n        collected.append(outcome)\n    return collected",
+     'comprehensions as append loops')
+twin('C16', 'c16-twin-count-statement', BASICS,
+     "    count = count if count is not None else len(activities)\n    if count > len(activities):",
+     "    available = len(activities)\n    if count is None:\n        count = available\n    if available < count:",
+     'conditional expression as statement, mirrored comparison')
 twin('C16', 'c16-twin-loop-form', BASICS,
      "    return [await task for task in tasks]",
      "    return [(await task) for task in tasks]",
